@@ -6,6 +6,7 @@ import (
 	"errors"
 	"fmt"
 	"io"
+	"strings"
 	"testing"
 	"time"
 
@@ -299,6 +300,7 @@ type BCase struct {
 	Cuts   []int // member boundaries inside the record stream (payload offset mod length)
 	RD     int
 	SubVal byte
+	Omit   int // 0 none, 1 aux tags, 2 all variable length data: what the reader is told to leave out
 	Big    int // >0: record Big%len gets a 4200-byte Z field followed by more aux fields (a record larger than the reader's inline buffer)
 }
 
@@ -313,10 +315,24 @@ func drawB(t *rapid.T) BCase {
 	if rapid.IntRange(0, 3).Draw(t, "big?") == 0 {
 		c.Big = rapid.IntRange(1, 6).Draw(t, "big")
 	}
+	c.Omit = rapid.SampledFrom([]int{0, 0, 1, 2}).Draw(t, "omit")
 	return c
 }
 
-func readBAM(stream []byte, rd int) (hdr string, lines []string, err error, panicked string) {
+// fixedColumns keeps the nine mandatory columns before SEQ: what every Omit mode returns
+func fixedColumns(lines []string) []string {
+	out := make([]string, len(lines))
+	for i, l := range lines {
+		f := strings.SplitN(l, "\t", 10)
+		if len(f) > 9 {
+			f = f[:9]
+		}
+		out[i] = strings.Join(f, "\t")
+	}
+	return out
+}
+
+func readBAM(stream []byte, rd, omit int) (hdr string, lines []string, err error, panicked string) {
 	defer func() {
 		if e := recover(); e != nil {
 			panicked = fmt.Sprint(e)
@@ -327,6 +343,12 @@ func readBAM(stream []byte, rd int) (hdr string, lines []string, err error, pani
 		return "", nil, err, ""
 	}
 	defer r.Close()
+	switch omit {
+	case 1:
+		r.Omit(bam.AuxTags)
+	case 2:
+		r.Omit(bam.AllVariableLengthData)
+	}
 	t, _ := r.Header().MarshalText()
 	hdr = string(t)
 	for {
@@ -416,7 +438,13 @@ func runB(c BCase, rec *h.Rec) {
 	f := bz.BuildFile(pieces, 6, true)
 	stream := f.Bytes
 	// sanity: the intact stream reads back as the original lines
-	_, got, err, p := readBAM(stream, c.RD)
+	if c.Omit != 0 {
+		lines = fixedColumns(lines)
+	}
+	_, got, err, p := readBAM(stream, c.RD, c.Omit)
+	if c.Omit != 0 {
+		got = fixedColumns(got)
+	}
 	if p != "" || err != nil || fmt.Sprint(got) != fmt.Sprint(lines) {
 		rec.Skip(fmt.Sprintf("intact stream does not read back (C05's business): %v %s", err, p))
 		return
@@ -429,7 +457,12 @@ func runB(c BCase, rec *h.Rec) {
 	defer func() { rec.AddEvals(evals, nt) }()
 	run := func(b []byte) (lines []string, err error, ok bool) {
 		var p string
-		fin := h.Call(10*time.Second, func() { _, lines, err, p = readBAM(b, c.RD) })
+		fin := h.Call(10*time.Second, func() {
+			_, lines, err, p = readBAM(b, c.RD, c.Omit)
+			if c.Omit != 0 {
+				lines = fixedColumns(lines)
+			}
+		})
 		if !fin {
 			rec.Failf("reading a damaged BAM did not return within 10s")
 			return nil, nil, false
@@ -489,6 +522,8 @@ func runB(c BCase, rec *h.Rec) {
 		}
 	}
 	rec.ClassIf(c.Big > 0, "record_larger_than_4096_bytes")
+	rec.ClassIf(c.Omit == 1, "reader_omits_aux_tags")
+	rec.ClassIf(c.Omit == 2, "reader_omits_all_variable_length_data")
 	rec.NTIf(len(f.Members) >= 3)
 }
 
